@@ -28,7 +28,7 @@ CHECKS = {
                      'a baton, every source line of the traced circuits functions is a pre-emption point, and the positions of at most P '
                      'pre-emptions (k traced lines after a thread got the baton) and the thread taking over are choice variables '
                      'enumerated exhaustively; every schedule within the bound must dispatch each fired event exactly once in '
-                     'per-thread order and must never leave the loop blocked in its untimed idle wait with a non-empty queue',
+                     'per-thread order and must never leave the loop blocked in its idle wait (untimed, or bounded by a timer: no timeout may be needed) with a non-empty queue',
                 note='trusted: the scheduler (sys.settrace line events, scheduler-aware RLock/Event doubles) and pathex; fall-back idle '
                      'generator only; P pre-emptions within the stated windows; pre-emption inside one source line is not explored'),
     'C04': dict(engine='pathex', technique=TECH, ref='DESIGN.md 4/C04',
@@ -54,7 +54,7 @@ CHECKS = {
                      'crossing trees, every unregistration completes',
                 note='trusted: z3/pathex, ghost forest; one recorded known finding (ancestor detaches first) is reported as KNOWN-FINDING'),
     'C08': dict(engine='pathex', technique=TECH, ref='DESIGN.md 4/C08',
-                text='bounded symbolic execution of the real run()/stop()/tick() loop executed in the checking thread: stop placement '
+                text='bounded symbolic execution of the real run()/stop()/tick() loop executed in the checking thread or launched with start(): stop placement '
                      '(started / mid-chain / generator step / real second thread at the idle wait), stop kind, chain lengths and run '
                      'cycles are solver-enumerated choices and the exit code is an unconstrained z3 Int; started/stopped exactly once, '
                      'everything fired is dispatched before run() ends, exit code equality discharged by z3, stop() when not running is a no-op',
